@@ -1,5 +1,6 @@
 import IPT.Real.Consts
 import IPT.Model.Hours
+import IPT.Lemmas.Civil
 import Mathlib.Tactic.Linarith
 import Mathlib.Tactic.Ring
 /-
@@ -143,6 +144,43 @@ theorem ra_wrap_lift (P C N : ℝ) (hC0 : 0 ≤ C) (hC1 : C < 360)
   · have a : ¬ (350 < C ∧ N < 10) := fun h => by linarith [h.1, h.2]
     have b : ¬ (350 < P ∧ C < 10) := fun h => by linarith [h.1, h.2]
     simp only [a, b, if_false]
+
+/-- 1583-01-01 as a day number -/
+def rd1583 : Int := 577814
+
+theorem rd1583_eq : toRD ⟨1583, 1, 1⟩ = rd1583 := by decide
+
+/-- every day number from 1583-01-01 on denotes a Gregorian date (valid month and day, after the reform) -/
+theorem fromRD_gregorian (rd : Int) (h : rd1583 ≤ rd) : GregorianDate (fromRD rd) := by
+  obtain ⟨m1, m12, d1, d31, _, hy⟩ := CivilLemmas.fromRD_valid rd
+  have spec := CivilLemmas.yearOfRD_spec rd
+  refine ⟨m1, m12, d1, d31, Or.inl ?_⟩
+  rw [hy]
+  -- the year containing rd starts no later than rd, and rd ≥ start of 1583
+  have : toRD ⟨1583, 1, 1⟩ < toRD ⟨yearOfRD rd + 1, 1, 1⟩ := by rw [rd1583_eq]; omega
+  simp only [toRD, daysBeforeYear, daysBeforeMonth] at this
+  generalize yearOfRD rd = y at *
+  omega
+
+/-- **the Julian Day the model (and the code) attaches to a day number is that day number plus a
+    constant**: JD.new rd gmt = rd + 1721424.5 − gmt/24 for every day from 1583-01-01 on -/
+theorem jd_new_eq_rd (rd : Int) (gmt : ℝ) (h : rd1583 ≤ rd) :
+    (JD.new rd gmt).value = (rd : ℝ) + 1721424.5 - gmt / 24 := by
+  simp only [JD.new]
+  rw [jd_eq_rd _ gmt (fromRD_gregorian rd h), (CivilLemmas.fromRD_valid rd).2.2.2.2.1]
+
+/-- so stepping a Julian Day by whole days (JulianDay::sub / add: value ∓ i, date ∓ i days) lands on
+    the Julian Day of the stepped date — what the nearest-good-day search (C09) relies on -/
+theorem jd_sub_is_jd_of_date (rd : Int) (gmt : ℝ) (i : ℕ) (h : rd1583 ≤ rd - i) :
+    ((JD.new rd gmt).sub i).value = (JD.new (rd - i) gmt).value ∧ ((JD.new rd gmt).sub i).rd = rd - i ∧
+    ((JD.new rd gmt).add i).value = (JD.new (rd + i) gmt).value ∧ ((JD.new rd gmt).add i).rd = rd + i := by
+  have h1 : rd1583 ≤ rd := by omega
+  have h2 : rd1583 ≤ rd + i := by omega
+  refine ⟨?_, rfl, ?_, rfl⟩
+  · simp only [JD.sub, sc_ofInt]
+    rw [jd_new_eq_rd rd gmt h1, jd_new_eq_rd (rd - i) gmt h]; push_cast; ring
+  · simp only [JD.add, sc_ofInt]
+    rw [jd_new_eq_rd rd gmt h1, jd_new_eq_rd (rd + i) gmt h2]; push_cast; ring
 
 -- non-vacuity: leap-day and year-end neighbours are Gregorian dates one day-number apart
 example : GregorianDate ⟨2024, 2, 29⟩ ∧ GregorianDate ⟨2024, 3, 1⟩ ∧ toRD ⟨2024, 3, 1⟩ = toRD ⟨2024, 2, 29⟩ + 1 := by
